@@ -3,6 +3,13 @@ import Vata.UpCert
 import Vata.DownCert
 import Vata.Proofs.InclUp
 import Vata.Proofs.InclUpTotal
+import Vata.Proofs.InclUpBdd
+import Vata.Proofs.Sanitize
+import Vata.Proofs.SimModel
+import Vata.Proofs.InclDown
+import Vata.Proofs.InclDownInv
+import Vata.Proofs.InclDownTotal
+import Vata.Properties.Dispatch
 /-!
 # C07 – Inclusion on BDD-encoded (semi-symbolic) tree automata is exact
 
@@ -20,13 +27,27 @@ import Vata.Proofs.InclUpTotal
 * **Reference.**  `inclM A B fuel` on the automata the BDD objects were loaded from.  The verdict of every implemented
   BDD selection is compared with it; so is (C01) the verdict of every explicit selection, which gives "the verdict
   equals the one obtained in the explicit encoding".
-* **Model of the code.**  There is **no** model of the symbolic encodings (MTBDD transition tables, symbol-wise pairing
-  of leaves) nor of `CheckUpwardTreeInclusion` / the downward functors on them.  What is proved is the *encoding
-  independent* core the symbolic algorithms share with the explicit ones: the two certificate principles.  For the
-  bottom-up upward algorithm the principle shows what the post-image step has to do: `UpCert` asks for closure under
-  **one macro-state chosen per child position** (`All2 (fun k S => (k, S) ∈ X) ρ.kids Ss`) – the shape the unchanged
-  `src/tree_incl_up.hh` got wrong by merging all macro-states known for a child (defect D9).
-  All theorems here are therefore partial claims with respect to the property.
+* **Models of the code – on the ABSTRACT automaton.**  The BDD encoding itself is read as the identity on `TA`: the
+  MTBDD `GetMtbdd(tuple)` is the function `symbol ↦ {parent | symbol(tuple) → parent}` (that the transition tables denote
+  exactly the rules that were added is C08, `Vata/BddAbs.lean`).  On this reading
+  - `inclUpBdd A B fuel` (`Vata/InclUpBdd.lean`) mirrors `CheckUpwardTreeInclusion` with `UpwardInclusionFunctor` and
+    `ForeachUpSymbolFromTupleAndTupleSetDo` (bottom-up encoding, `ANTICHAINS_UP_NOSIM`): antichain and work-set of pairs
+    `(q, S)`, and for every tuple of the transition table that contains the processed state **one macro-state chosen per
+    child position** (the repaired code); `checkInclUpBdd` = `CheckInclusion` (operands sanitised first);
+    `inclUpBddOld` is the code BEFORE the repair (one call per tuple with the UNION of the macro-states known for a child –
+    defect D9), kept to show that the repair was needed (`C07_old_code_wrong`);
+  - the top-down encoding uses the SAME templates `CheckDownwardTreeInclusion` / `DownwardInclusionFunctor` /
+    `OptDownwardInclusionFunctor` as the explicit encoding, so the models are those of C01 (`Vata/InclDown.lean`):
+    `checkInclDownRec` (`DOWN_REC_NOSIM`), `inclDownOpt` on the sanitised operands (`DOWN_REC_OPT_NOSIM`, the same function by
+    definition), `inclDownSim A B R` (`DOWN_REC_SIM`, `DOWN_REC_OPT_SIM`: the caller's relation, validated by the model);
+  - the bottom-up selection "downward with simulation" (`BDDBUTreeAutCore::CheckInclusion`, case `ANTICHAINS_DOWN_REC_SIM`)
+    sanitises both operands, computes the downward simulation on their disjoint union itself, converts to top-down form
+    and calls the top-down `DOWN_REC_SIM`: the model is `inclDownSim A' B' (downSimRef (unionDisjoint A' B'))` on
+    `(A', B') = sanitize A B` (`C07_bu_downward_sim_exact`); the conversion `GetTopDownAut` is the identity on the abstract
+    automaton.
+  All models end certify-then-trust; `none` = fuel exhausted, never a verdict.
+* **Dispatch.**  `Vata.Gen.tdDispatch`, `Vata.Gen.buDispatch` are the two `switch (params.GetOptions())`, regenerated from
+  the C++ sources on every run (`Vata/Properties/Dispatch.lean`).
 -/
 namespace Vata.Props
 open Vata Vata.InclUp
@@ -68,14 +89,218 @@ example : UpCert InclUpEx.exH InclUpEx.exG [(3, [1]), (4, [1]), (9, [2])] ∧
 example : upCertB InclUpEx.exG InclUpEx.exH [(1, [3, 4]), (2, [9])] = false ∧
     upCertB InclUpEx.exG InclUpEx.exH [(1, [3]), (1, [4]), (2, [9])] = false := by decide
 
+/-! ### bottom-up encoding, upward algorithm: the model of the (repaired) code -/
+
+/-- every verdict of the model of `CheckUpwardTreeInclusion` on the bottom-up encoding is exact – of the exploration on
+operands prepared by the caller (`inclUpBdd`) and of `CheckInclusion` with `ANTICHAINS_UP_NOSIM`, which sanitises first
+(`checkInclUpBdd`) -/
+theorem C07_bu_upward_model_exact (A B : TA) (fuel : Nat) (b : Bool) (c : Cert) :
+    (inclUpBdd A B fuel = some (b, c) → (b = true ↔ Incl A B)) ∧
+    (checkInclUpBdd A B fuel = some (b, c) → (b = true ↔ Incl A B)) :=
+  ⟨fun h => inclUpBdd_iff h, fun h => checkInclUpBdd_iff h⟩
+
+-- the shape of defect D9 (`g(a,b)`, children reached by different trees): the repaired model answers `false`, the converse
+-- `true`
+example : (inclUpBdd InclUpBddEx.cexA InclUpBddEx.cexB 10).map (·.1) = some false ∧
+    (inclUpBdd InclUpBddEx.cexB InclUpBddEx.cexA 10).map (·.1) = some true ∧
+    (checkInclUpBdd InclUpBddEx.cexA InclUpBddEx.cexB 10).map (·.1) = some false := ⟨rfl, rfl, rfl⟩
+
+/-- what a verdict carries: `true` comes with an antichain that is an upward certificate without bad pair, `false` with
+a tree accepted by `A` and rejected by `B` -/
+theorem C07_bu_upward_verdict_certified (A B : TA) (fuel : Nat) (b : Bool) (c : Cert)
+    (h : inclUpBdd A B fuel = some (b, c)) :
+    match c with
+    | .closed X => b = true ∧ UpCert A B X ∧ NoBad A B X
+    | .witness w => b = false ∧ accepts A w = true ∧ accepts B w = false := inclUpBdd_cert h
+
+example : inclUpBdd InclUpBddEx.cexB InclUpBddEx.cexA 10 = some (true, .closed [(3, [1]), (4, [1]), (9, [2])]) := rfl
+
+/-- the exploration proper (no final check involved): the antichain of a `return true` passes the certificate check,
+the tree of a `return false` separates the languages; hence the model answers `none` only when the fuel is exhausted -/
+theorem C07_bu_upward_exploration_certified (A B : TA) (fuel : Nat) :
+    (∀ P, InclUpBdd.run A B fuel = some (.ok P) → upCertB A B (InclUpBdd.pairs P) = true) ∧
+    (∀ e, InclUpBdd.run A B fuel = some (.error e) → accepts A e.2 = true ∧ accepts B e.2 = false) ∧
+    (inclUpBdd A B fuel = none ↔ InclUpBdd.run A B fuel = none) :=
+  ⟨fun _ h => InclUpBdd.run_ok_cert h, fun _ h => InclUpBdd.run_error_ok h, InclUpBdd.inclUpBdd_eq_none⟩
+
+example : ∃ P, InclUpBdd.run InclUpBddEx.cexB InclUpBddEx.cexA 10 = some (.ok P) := ⟨_, rfl⟩
+example : ∃ e, InclUpBdd.run InclUpBddEx.cexA InclUpBddEx.cexB 10 = some (.error e) := ⟨_, rfl⟩
+
+/-- the code BEFORE the repair (the union of all macro-states known for a child, defect D9) is wrong: it answers `true`
+on two pairs of automata whose inclusion does not hold -/
+theorem C07_old_code_wrong :
+    (inclUpBddOld InclUpBddEx.cexA InclUpBddEx.cexB 10 = some true ∧ ¬ Incl InclUpBddEx.cexA InclUpBddEx.cexB) ∧
+    (inclUpBddOld InclUpBddEx.cexA2 InclUpBddEx.cexB2 10 = some true ∧ ¬ Incl InclUpBddEx.cexA2 InclUpBddEx.cexB2) :=
+  ⟨inclUpBddOld_counterexample, inclUpBddOld_counterexample_union⟩
+
+/-- … and exact only on automata `A` whose rules have at most one child (then no union is ever formed) -/
+theorem C07_old_code_partial (A B : TA) (har : ∀ ρ, ρ ∈ A.rules → ρ.kids.length ≤ 1) (fuel : Nat) (b : Bool)
+    (h : inclUpBddOld A B fuel = some b) : b = true ↔ Incl A B := inclUpBddOld_partial har h
+
+example : (∀ ρ, ρ ∈ InclUpBddEx.exEven.rules → ρ.kids.length ≤ 1) ∧
+    inclUpBddOld InclUpBddEx.exEven InclUpBddEx.exAll 10 = some true ∧
+    ¬ ∀ ρ, ρ ∈ InclUpBddEx.cexA.rules → ρ.kids.length ≤ 1 := ⟨by decide, by decide, by decide⟩
+
+/-! ### top-down encoding: downward recursive, with / without cache, with / without simulation -/
+
+/-- the four selections of `BDDTDTreeAutCore::CheckInclusion` (the same templates as in the explicit encoding): every
+verdict of the models is exact; the two `NOSIM` models (`inclDownOpt` is `inclDownRec` by definition) return the right
+verdict for every fuel above the bound `|Q_A'|·2^|Q_B'|` of the sanitised operands; so does the `SIM` model when the
+given relation passes the validation and the rule children of `A` are productive -/
+theorem C07_td_downward_models_exact (A B : TA) (R : Rel) :
+    (∀ fuel b c, checkInclDownRec A B fuel = some (b, c) → (b = true ↔ Incl A B)) ∧
+    (∀ fuel b c, inclDownOpt (removeUseless A) (removeUseless B) fuel = some (b, c) → (b = true ↔ Incl A B)) ∧
+    (∀ fuel b c, inclDownSim A B R fuel = some (b, c) → (b = true ↔ Incl A B)) ∧
+    (∀ fuel, InclDown.fuelBoundD (removeUseless A) (removeUseless B) < fuel →
+      inclDownOpt (removeUseless A) (removeUseless B) fuel = checkInclDownRec A B fuel ∧
+      (Incl A B → ∃ c, checkInclDownRec A B fuel = some (true, c)) ∧
+      (¬ Incl A B → ∃ c, checkInclDownRec A B fuel = some (false, c))) ∧
+    (InclDown.KidsProductive A → isDownSimB (unionDisjoint A B) R = true → InclDown.disjointB A B = true →
+      ∀ fuel, InclDown.fuelBoundD A B < fuel →
+        (Incl A B → ∃ c, inclDownSim A B R fuel = some (true, c)) ∧
+        (¬ Incl A B → ∃ c, inclDownSim A B R fuel = some (false, c))) :=
+  ⟨fun _ _ _ h => checkInclDownRec_iff h,
+    fun _ _ _ h => (inclDownOpt_iff h).trans (incl_removeUseless A B),
+    fun _ _ _ h => inclDownSim_iff h,
+    fun _ hf => ⟨rfl, checkInclDownRec_complete A B hf⟩,
+    fun hA hsim hdis _ hf => inclDownSim_complete hA hsim hdis hf⟩
+
+example : (checkInclDownRec InclDownEx.exG InclDownEx.exH 10).map (·.1) = some false ∧
+    (inclDownOpt (removeUseless InclDownEx.exUs) (removeUseless InclDownEx.exA) 10).map (·.1) = some true ∧
+    inclDownSim InclDownEx.exS1 InclDownEx.exS2 [(5, 6)] 10 = some (true, .closed [(1, [3, 4]), (2, [9])]) :=
+  ⟨rfl, rfl, rfl⟩
+example : InclDown.KidsProductive InclDownEx.exS1 ∧ isDownSimB (unionDisjoint InclDownEx.exS1 InclDownEx.exS2) [(5, 6)] = true ∧
+    InclDown.disjointB InclDownEx.exS1 InclDownEx.exS2 = true ∧ InclDown.fuelBoundD InclDownEx.exS1 InclDownEx.exS2 < 49 :=
+  ⟨(trimmed_of_allUsefulB (by decide)).1, by decide, by decide, by decide⟩
+
+/-! ### bottom-up encoding: downward with simulation (via the top-down encoding) -/
+
+/-- the route of the bottom-up case `ANTICHAINS_DOWN_REC_SIM`: sanitise both operands (`A'`, `B'`: trimmed, renumbered,
+disjoint), compute the downward simulation on their disjoint union (`R` = the greatest one, `downSimRef`, the relation of
+C04), run the recursive downward algorithm pruned by `R`.  No hypothesis is left: the validation of `R` passes and the rule
+children of `A'` are productive; every verdict is exact for the ORIGINAL question, and the right verdict is returned for
+every fuel above the bound -/
+theorem C07_bu_downward_sim_exact (A B A' B' : TA) (R : Rel) (hA' : A' = (sanitize A B).1)
+    (hB' : B' = (sanitize A B).2.1) (hR : R = downSimRef (unionDisjoint A' B')) :
+    (∀ fuel b c, inclDownSim A' B' R fuel = some (b, c) → (b = true ↔ Incl A B)) ∧
+    (∀ fuel, InclDown.fuelBoundD A' B' < fuel →
+      (Incl A B → ∃ c, inclDownSim A' B' R fuel = some (true, c)) ∧
+      (¬ Incl A B → ∃ c, inclDownSim A' B' R fuel = some (false, c))) := by
+  subst hA' hB' hR
+  have hK : InclDown.KidsProductive (sanitize A B).1 := (trimmed_of_allUsefulB (sanitize_trimmed A B).1).1
+  have hsim := downSimRef_check (unionDisjoint (sanitize A B).1 (sanitize A B).2.1)
+  have hdis : InclDown.disjointB (sanitize A B).1 (sanitize A B).2.1 = true :=
+    InclDown.disjointB_iff.mpr (sanitize_disjoint A B)
+  have hq := checkIncl_sanitized A B
+  refine ⟨fun fuel b c h => (inclDownSim_iff h).trans hq, fun fuel hf => ?_⟩
+  have h3 := inclDownSim_complete hK hsim hdis hf
+  rw [hq] at h3
+  exact h3
+
+-- operands that overlap (state 7 in both), the first not trimmed; both verdicts
+example : ∃ c, inclDownSim (sanitize SanEx.exA SanEx.exB).1 (sanitize SanEx.exA SanEx.exB).2.1
+    (downSimRef (unionDisjoint (sanitize SanEx.exA SanEx.exB).1 (sanitize SanEx.exA SanEx.exB).2.1)) 20 = some (true, c) :=
+  ⟨_, rfl⟩
+example : ∃ c, inclDownSim (sanitize SanEx.exB SanEx.exA).1 (sanitize SanEx.exB SanEx.exA).2.1
+    (downSimRef (unionDisjoint (sanitize SanEx.exB SanEx.exA).1 (sanitize SanEx.exB SanEx.exA).2.1)) 20 = some (false, c) :=
+  ⟨_, rfl⟩
+
+/-! ### "the verdict equals the one obtained in the explicit encoding" -/
+
+/-- any verdicts of the models of the BDD selections (bottom-up upward; top-down downward without / with cache / with a
+given relation) and of the models of the explicit selections (upward, downward non-recursive, downward recursive) on
+the same pair, and any verdict of the reference, are equal – whatever the fuels and whatever `R` -/
+theorem C07_bdd_agrees_with_explicit (A B : TA) (R : Rel) (f₀ f₁ f₂ f₃ f₄ f₅ f₆ f₇ : Nat)
+    (b₀ b₁ b₂ b₃ b₄ b₅ b₆ b₇ : Bool) (c₁ c₂ c₃ c₄ c₅ c₆ c₇ : Cert)
+    (h₀ : inclM A B f₀ = some b₀)
+    (h₁ : checkInclUpBdd A B f₁ = some (b₁, c₁))
+    (h₂ : checkInclDownRec A B f₂ = some (b₂, c₂))
+    (h₃ : inclDownOpt (removeUseless A) (removeUseless B) f₃ = some (b₃, c₃))
+    (h₄ : inclDownSim A B R f₄ = some (b₄, c₄))
+    (h₅ : checkInclUp A B f₅ = some (b₅, c₅))
+    (h₆ : checkInclDownNonrec A B f₆ = some (b₆, c₆))
+    (h₇ : inclDownNonrecSim A B R f₇ = some (b₇, c₇)) :
+    b₁ = b₀ ∧ b₂ = b₀ ∧ b₃ = b₀ ∧ b₄ = b₀ ∧ b₅ = b₀ ∧ b₆ = b₀ ∧ b₇ = b₀ := by
+  have e₀ := inclM_iff A B f₀ b₀ h₀
+  have e₁ := checkInclUpBdd_iff h₁
+  have e₂ := checkInclDownRec_iff h₂
+  have e₃ := (inclDownOpt_iff h₃).trans (incl_removeUseless A B)
+  have e₄ := inclDownSim_iff h₄
+  have e₅ := checkInclUp_iff h₅
+  have e₆ := checkInclDownNonrec_iff h₆
+  have e₇ := inclDownNonrecSim_iff h₇
+  have key : ∀ b : Bool, (b = true ↔ Incl A B) → b = b₀ := fun b e => by
+    cases b <;> cases b₀ <;> simp_all
+  exact ⟨key _ e₁, key _ e₂, key _ e₃, key _ e₄, key _ e₅, key _ e₆, key _ e₇⟩
+
+example : inclM InclDownEx.exS1 InclDownEx.exS2 10 = some true ∧
+    (checkInclUpBdd InclDownEx.exS1 InclDownEx.exS2 20).map (·.1) = some true ∧
+    (checkInclDownRec InclDownEx.exS1 InclDownEx.exS2 10).map (·.1) = some true ∧
+    (inclDownOpt (removeUseless InclDownEx.exS1) (removeUseless InclDownEx.exS2) 10).map (·.1) = some true ∧
+    (inclDownSim InclDownEx.exS1 InclDownEx.exS2 [(5, 6)] 10).map (·.1) = some true ∧
+    (checkInclUp InclDownEx.exS1 InclDownEx.exS2 20).map (·.1) = some true ∧
+    (checkInclDownNonrec InclDownEx.exS1 InclDownEx.exS2 10).map (·.1) = some true ∧
+    (inclDownNonrecSim InclDownEx.exS1 InclDownEx.exS2 [(5, 6)] 10).map (·.1) = some true :=
+  ⟨by decide, rfl, rfl, rfl, rfl, rfl, rfl, rfl⟩
+
+/-! ### "unimplemented selections are reported by an exception" -/
+
+/-- the two dispatchers, as regenerated from the sources: (1) the top-down encoding implements exactly the option words
+`DOWN_REC_NOSIM`, `DOWN_REC_OPT_NOSIM`, `DOWN_REC_SIM`, `DOWN_REC_OPT_SIM`, the bottom-up encoding exactly `UP_NOSIM`,
+`UP_SIM`, `DOWN_REC_SIM`, no word twice; (2) in both every other of the 2⁷ option words reaches `default`, which throws
+`NotImplementedException` – no verdict is fabricated; (3) in every case the callee matches the direction / recursion /
+cache bits of its word, and the nested call of the bottom-up "via top-down" case uses a word the top-down dispatcher
+implements; (4) a case with the simulation bit passes the given relation and the original operands, a case without it the
+identity and the sanitised copies, the "via top-down" case its own computed relation on sanitised copies -/
+theorem C07_dispatch (c : Gen.Case) (hc : c ∈ Gen.tdDispatch ∨ c ∈ Gen.buDispatch) :
+    (Dispatch.sameWords (Dispatch.words Gen.tdDispatch) [10, 14, 26, 30] = true ∧
+      Dispatch.sameWords (Dispatch.words Gen.buDispatch) [0, 16, 26] = true ∧
+      (Dispatch.words Gen.tdDispatch).Nodup ∧ (Dispatch.words Gen.buDispatch).Nodup) ∧
+    (Gen.tdDispatchDefaultThrows = true ∧ Gen.buDispatchDefaultThrows = true) ∧
+    (Dispatch.treeConsistent c = true ∧
+      (Dispatch.words Gen.tdDispatch).contains (Dispatch.fDir ||| Dispatch.fRec ||| Dispatch.fSim) = true) ∧
+    Dispatch.simConsistent c = true := by
+  have ht := Dispatch.tree_consistent
+  have hs := Dispatch.sim_consistent
+  simp only [List.all_append, Bool.and_eq_true, List.all_eq_true] at ht hs
+  refine ⟨⟨Dispatch.implemented_td, Dispatch.implemented_bu, Dispatch.no_duplicate_cases.2.1,
+    Dispatch.no_duplicate_cases.2.2.1⟩, ⟨Dispatch.default_throws.2.1, Dispatch.default_throws.2.2.1⟩,
+    ⟨?_, Dispatch.via_topdown_target_implemented⟩, ?_⟩
+  · rcases hc with hc | hc
+    · exact ht.1.2 c hc
+    · exact ht.2 c hc
+  · rcases hc with hc | hc
+    · exact hs.1.1.2 c hc
+    · exact hs.1.2 c hc
+
+example : (⟨"ANTICHAINS_UP_NOSIM", 0, "bddUp", "UpwardInclusionFunctor", "-", "true", "identity"⟩ : Gen.Case) ∈
+    Gen.buDispatch := by decide
+-- the predicates are not trivially true: "via top-down" with the caller's relation, or the upward code for a downward
+-- word, would be refused
+example : Dispatch.simConsistent ⟨"X", 26, "viaTopDown", "-", "-", "true", "given"⟩ = false ∧
+    Dispatch.treeConsistent ⟨"X", 10, "bddUp", "-", "-", "true", "identity"⟩ = false := by decide
+
 /-!
 ## not yet proved
 
-* No model of the BDD encodings: loading into `BDDTopDownTreeAut` / `BDDBottomUpTreeAut`, the MTBDD transition tables,
-  `ForeachUpSymbolFromTupleAndTupleSetDo` / `ForeachDownSymbolFromStateAndStateSetDo`, the 16-bit symbol encoding.
-* No model of the algorithms on them (`CheckUpwardTreeInclusion`, the downward functors with and without cache, the
-  simulation variants, inversion of a bottom-up automaton to top-down form); hence no theorem "the BDD verdict is
-  exact".  The property is established by the correspondence check against `C07_reference_exact` only.
-* "Unimplemented selections are reported by an exception" is a test-only claim about the dispatch code.
+* **The encodings themselves.**  All models work on the abstract automaton; the MTBDD transition tables, the traversals
+  `ForeachUpSymbolFromTupleAndTupleSetDo` / `ForeachDownSymbolFromStateAndStateSetDo` as MTBDD applies, the 16-bit symbol
+  encoding and `GetTopDownAut` (inversion of a bottom-up automaton) are replaced by "the rules of the automaton".  For the
+  bottom-up tables the link is C08 (`HasRule (ofRules rs) … ↔ rule ∈ rs`); the top-down tables and the inversion have no
+  model.  Hence "the BDD verdict is exact" is a theorem about models that read the encoding as the identity.
+* **No termination bound for the bottom-up upward exploration** `InclUpBdd.run`: every verdict is exact and `none` means
+  "fuel exhausted" (`C07_bu_upward_exploration_certified`), but no fuel is proved to suffice (the explicit upward model
+  of C01 has such a bound).
+* The bottom-up selection **upward with simulation** (`ANTICHAINS_UP_SIM`, implemented according to `C07_dispatch`) has no
+  model; soundness of upward pruning modulo a simulation is not proved.
+* **The `SIM` selections of the top-down encoding outside their preconditions**: exactness is unconditional, a verdict
+  is guaranteed only for a relation that passes the validation, disjoint operands and productive rule children
+  (`C07_td_downward_models_exact`); the C++ passes the caller's relation through unchecked.  That the relation computed by
+  `ComputeSimulation` on the BDD union inside the bottom-up route is `downSimRef` of the union is C04 (explicit encoding;
+  the BDD simulation code has no model).
+* "With or without the implication cache": identified by definition, see C01.
+* **Link between the dispatch tables and the models.**  `C07_dispatch` is about the tables regenerated from the sources
+  (and "throws" is the table's record that the `default` branch contains a `throw`); which Lean model stands for which
+  callee is the reading given in the header, not a theorem.
 -/
 end Vata.Props
